@@ -11,7 +11,7 @@ from ..facts import (physics_seeds, interpolate_modes_roles, LONG, OFFD, CALC, F
                      E, PTV, PSTAT, QPHYS, MODE_DEP)
 from ..model import dotted_name, src, body_wo_doc, is_logging_stmt
 from ..report import AnalysisError, Where
-from ..sym import Ev, Obj, Masked, AVG, as_sym, CondV
+from ..sym import Ev, Obj, Tup, Masked, AVG, as_sym, CondV
 
 NS = "cij.core.phonon_contribution.nonshear"
 AU = U.Ry / U.bohr ** 3
@@ -218,240 +218,83 @@ def check_t0_mask(v):
 
 
 # ------------------------------------------------------------------ average_over_modes / clear_gamma_point
-def axis_of(node, dims_names):
-    """-> ('abs', k) for index k>=0, ('end', k) for the k-th axis from the end (k>=1)"""
-    if isinstance(node, ast.UnaryOp) and isinstance(node.op, ast.USub) and isinstance(node.operand, ast.Constant):
-        return ("end", int(node.operand.value))
-    if isinstance(node, ast.Constant) and isinstance(node.value, int):
-        return ("abs", node.value) if node.value >= 0 else ("end", -node.value)
-    if (isinstance(node, ast.BinOp) and isinstance(node.op, ast.Sub) and isinstance(node.left, ast.Name)
-            and node.left.id in dims_names and isinstance(node.right, ast.Constant)):
-        return ("rank-", int(node.right.value))
-    raise AnalysisError(f"unrecognised axis expression {src(node)}")
-
-
-def rank_names(f):
-    """names bound to len(<param>.shape) or <param>.ndim"""
-    out = {}
-    for st in body_wo_doc(f):
-        if isinstance(st, ast.Assign) and len(st.targets) == 1 and isinstance(st.targets[0], ast.Name):
-            v = st.value
-            if (isinstance(v, ast.Call) and dotted_name(v.func) == "len" and len(v.args) == 1
-                    and isinstance(v.args[0], ast.Attribute) and v.args[0].attr == "shape"
-                    and isinstance(v.args[0].value, ast.Name)):
-                out[st.targets[0].id] = v.args[0].value.id
-            if isinstance(v, ast.Attribute) and v.attr == "ndim" and isinstance(v.value, ast.Name):
-                out[st.targets[0].id] = v.value.id
-    return out
+def mode_average_reference(X, ws, nq, np_):
+    """(sum_q w_q * (1/np) sum_m X'_qm) / sum_q w_q with X'_{0,m<3} = 0"""
+    tot = sp.Integer(0)
+    for j in range(nq):
+        row = sum(sp.Integer(0) if (j == 0 and k < 3) else X[(j, k)] for k in range(np_)) / np_
+        tot += ws[j] * row
+    return tot / sum(ws)
 
 
 def r_average(ctx, model):
+    """the mode average is folded on symbolic (grid..., nq, np) tables with one atom per (q, mode) cell and one per q-point weight:
+    the result is (sum_q w_q mean_m X'_qm) / sum_q w_q with the three acoustic Gamma cells replaced by 0, and the argument is left
+    as it was (the mask is applied to a private copy); the method wrapper is folded with the weights read from qha_input.weights"""
+    from ..sym import ArrV, RaisedV
     ref = f"{NS}:average_over_modes"
     f = model.func(ref)
     ctx.fn(ref)
+    ctx.fn(f"{NS}:clear_gamma_point")
     w = model.where(ref, f)
-    params = [a.arg for a in f.args.args]
-    if len(params) != 2:
+    mod = model.mods[NS]
+    if len(f.args.args) != 2:
         raise AnalysisError("average_over_modes no longer takes (amount, q_weights)")
-    amount, weights = params
-    dims = rank_names(f)
-    body = [s for s in body_wo_doc(f) if not is_logging_stmt(s)]
-    # 1. copy, 2. clear on the copy, 3. return nested averages
-    copies = {}
-    cleared = []
-    ret = None
-    for st in body:
-        if isinstance(st, ast.Assign) and len(st.targets) == 1 and isinstance(st.targets[0], ast.Name):
-            v = st.value
-            tgt = st.targets[0].id
-            if isinstance(v, ast.Call):
-                fn = dotted_name(v.func) or ""
-                if fn.endswith(".copy") and isinstance(v.func, ast.Attribute) and isinstance(v.func.value, ast.Name) \
-                        and v.func.value.id == amount and not v.args:
-                    copies[tgt] = st.lineno
-                    continue
-                if fn in ("numpy.copy", "numpy.array") and v.args and isinstance(v.args[0], ast.Name) and v.args[0].id == amount:
-                    copies[tgt] = st.lineno
-                    continue
-            if tgt in dims:
-                continue
-            if isinstance(v, ast.Name):
-                continue  # plain alias: not a copy
-            raise AnalysisError(f"unrecognised statement in average_over_modes: {src(st)[:80]}")
-        elif isinstance(st, ast.Expr) and isinstance(st.value, ast.Call):
-            fn = dotted_name(st.value.func) or ""
-            if fn.split(".")[-1] == "clear_gamma_point" and len(st.value.args) == 1 and isinstance(st.value.args[0], ast.Name):
-                cleared.append((st.value.args[0].id, st.lineno))
-                continue
-            raise AnalysisError(f"unrecognised call in average_over_modes: {src(st)[:80]}")
-        elif isinstance(st, ast.Return):
-            ret = st
-        else:
-            raise AnalysisError(f"unrecognised statement in average_over_modes: {src(st)[:80]}")
-    if ret is None:
-        raise AnalysisError("average_over_modes has no return")
 
-    def avg_call(node):
-        if not isinstance(node, ast.Call):
-            return None
-        fn = dotted_name(node.func) or ""
-        if fn not in ("numpy.average", "numpy.mean"):
-            return None
-        kw = {k.arg: k.value for k in node.keywords}
-        arr = node.args[0] if node.args else kw.get("a")
-        axis = kw.get("axis", node.args[1] if len(node.args) > 1 else None)
-        wts = kw.get("weights", node.args[3] if len(node.args) > 3 else None)
-        return fn, arr, axis, wts
+    def table(batch, nq, np_):
+        cells = {(j, k): sp.Symbol(f"X_{j}_{k}", real=True) for j in range(nq) for k in range(np_)}
+        return ArrV(batch, (nq, np_), cells=dict(cells)), cells
 
-    def sum_form(node):
-        """numpy.sum(inner * w, axis=k) [/ numpy.sum(w)] -> (normalised?, inner node, axis node, weights node)"""
-        normalised = False
-        if isinstance(node, ast.BinOp) and isinstance(node.op, ast.Div) and isinstance(node.right, ast.Call) \
-                and dotted_name(node.right.func) == "numpy.sum" and len(node.right.args) == 1 and isinstance(node.right.args[0], ast.Name):
-            normalised, wn, node = True, node.right.args[0], node.left
-        else:
-            wn = None
-        if isinstance(node, ast.Call) and dotted_name(node.func) == "numpy.sum" and node.args and isinstance(node.args[0], ast.BinOp) \
-                and isinstance(node.args[0].op, ast.Mult):
-            kw = {k.arg: k.value for k in node.keywords}
-            l, r = node.args[0].left, node.args[0].right
-            if isinstance(l, ast.Name):
-                l, r = r, l
-            if isinstance(r, ast.Name) and (wn is None or wn.id == r.id):
-                return normalised, l, kw.get("axis", node.args[1] if len(node.args) > 1 else None), r
-        return None
+    n = 0
+    for batch, nq, np_ in ((2, 2, 4), (1, 2, 4), (2, 1, 5), (2, 3, 3), (1, 3, 6)):
+        X, cells = table(batch, nq, np_)
+        ws = [sp.Symbol(f"W_{j}", positive=True) for j in range(nq)]
+        Wv = ArrV(0, (nq,), cells={(j,): ws[j] for j in range(nq)})
+        ev = Ev(model, {}, {}, ctx=ctx)
+        label = f"{batch + 2}-d table, {nq} q-points x {np_} modes"
+        try:
+            out = ev.call_def(f, mod, ref, [X, Wv], {})
+        except RaisedV as e:
+            ctx.violation(f"average_over_modes.{batch}.{nq}x{np_}", w, "the weighted mode average", f"raises {e.exc_name} at {e.where}",
+                          f"average_over_modes raises {e.exc_name} on a {label}", instance=label)
+            continue
+        n += 1
+        want = mode_average_reference(cells, ws, nq, np_)
+        ok = not isinstance(out, ArrV) and is_zero(as_sym(out) - want)
+        ctx.check(ok, f"{label}: (sum_q w_q mean_m X_qm)/sum_q w_q with the Gamma acoustic cells zeroed", w,
+                  expected=short(want, 200), found=(f"an array of shape {out.shape}" if isinstance(out, ArrV) else short(as_sym(out), 200)),
+                  explanation="the mode average is not the unweighted mean over the modes followed by the q-weight-normalised mean over the q-points "
+                              "with exactly the three acoustic modes of the first q-point masked", key=f"average_over_modes.{batch}.{nq}x{np_}")
+        same = all(X.get(kk) == v for kk, v in cells.items())
+        ctx.check(same, f"{label}: the caller's array is left unchanged (mask on a private copy)", w, expected="amount not modified",
+                  found="unchanged" if same else "cells " + str(sorted(kk for kk, v in cells.items() if X.get(kk) != v)[:4]) + " overwritten",
+                  explanation="the Gamma mask is written into the caller's array: a shared (cached) array is mutated", key=f"average_over_modes.{batch}.{nq}x{np_}.copy")
+    ctx.floor("table shapes folded", n, 5)
 
-    outer = avg_call(ret.value)
-    sf = sum_form(ret.value) if not outer else None
-    if sf:
-        normalised, inner_node, axis_node, wnode = sf
-        outer = ("numpy.average" if normalised else "numpy.sum (weights not normalised)", inner_node, axis_node, wnode)
-    inner = avg_call(outer[1]) if outer else None
-    if not outer or not inner:
-        raise AnalysisError(f"average_over_modes does not return nested numpy.average calls: {src(ret.value)[:100]}")
-    src_name = inner[1].id if isinstance(inner[1], ast.Name) else None
-    ok_copy = src_name in copies and any(n == src_name and ln > copies[src_name] and ln < ret.lineno for n, ln in cleared)
-    ctx.check(ok_copy, "Gamma mask applied to a fresh copy before averaging", w,
-              expected="x = amount.copy(); clear_gamma_point(x); average(x)",
-              found=f"averaged array {src(inner[1])}; copies {sorted(copies)}; cleared {[c for c, _ in cleared]}",
-              explanation="the Gamma acoustic entries (0/0 in every Bose factor) must be overwritten on a private copy "
-                          "before the reduction; otherwise NaN enters the sum or a shared array is mutated",
-              key="average_over_modes.copy_clear")
-    a_in = axis_of(inner[2], dims) if inner[2] is not None else None
-    ok_in = inner[3] is None and a_in in (("end", 1), ("rank-", 1))
-    ctx.check(ok_in, "inner reduction: unweighted mean over the mode axis (last)", w, expected="axis = last, no weights",
-              found=f"axis={src(inner[2]) if inner[2] is not None else None} weights={src(inner[3]) if inner[3] is not None else None}",
-              explanation="the mean over the 3N modes must be unweighted and over the last axis", key="average_over_modes.inner")
-    a_out = axis_of(outer[2], dims) if outer[2] is not None else None
-    ok_out = (isinstance(outer[3], ast.Name) and outer[3].id == weights and a_out in (("end", 1), ("rank-", 2))
-              and outer[0] == "numpy.average")
-    ctx.check(ok_out, "outer reduction: mean over q-points weighted by q_weights", w,
-              expected="numpy.average(..., weights=q_weights, axis = q axis (last after the inner mean))",
-              found=f"{outer[0]} axis={src(outer[2]) if outer[2] is not None else None} weights={src(outer[3]) if outer[3] is not None else None}",
-              explanation="the q-point mean must use the (normalised) q-point weights on the q axis",
-              key="average_over_modes.outer")
-
-    # the method wrapper passes self.q_weights
+    # method wrapper + q_weights property: weights are the second field of qha_input.weights, in file order
     owner, m, _ = model.find_member(LONG, "average_over_modes")
     mw = model.where(f"{owner}.average_over_modes", m)
     ctx.fn(f"{owner}.average_over_modes")
-    rets = [s for s in ast.walk(m) if isinstance(s, ast.Return)]
-    okm = False
-    if len(rets) == 1 and isinstance(rets[0].value, ast.Call):
-        c = rets[0].value
-        kw = {k.arg: k.value for k in c.keywords}
-        a0 = c.args[0] if c.args else kw.get(amount)
-        a1 = c.args[1] if len(c.args) > 1 else kw.get(weights)
-        okm = ((dotted_name(c.func) or "").split(".")[-1] == "average_over_modes" and isinstance(a0, ast.Name)
-               and a0.id == m.args.args[1].arg and src(a1) == f"{m.args.args[0].arg}.q_weights")
-    ctx.check(okm, "method average_over_modes forwards (amount, self.q_weights)", mw, expected="average_over_modes(amount, self.q_weights)",
-              found=src(rets[0].value) if rets else "no return", explanation="the weights handed to the mode average are not the q-point weights",
-              key="method.average_over_modes")
-
-    # q_weights property: weight field of every (coord, weight) pair, in file order
-    owner, q, _ = model.find_member(LONG, "q_weights")
-    qw = model.where(f"{owner}.q_weights", q)
-    ctx.fn(f"{owner}.q_weights")
-    rets = [s for s in ast.walk(q) if isinstance(s, ast.Return)]
-    okq, found = False, src(rets[0].value) if rets else "no return"
-    if len(rets) == 1:
-        comp = rets[0].value
-        if isinstance(comp, ast.Call) and (dotted_name(comp.func) or "") in ("numpy.array", "numpy.asarray") and comp.args:
-            comp = comp.args[0]
-        if isinstance(comp, (ast.ListComp, ast.GeneratorExp)) and len(comp.generators) == 1 and not comp.generators[0].ifs:
-            g = comp.generators[0]
-            it = src(g.iter)
-            if it.endswith("qha_input.weights"):
-                if isinstance(g.target, ast.Tuple) and len(g.target.elts) == 2 and isinstance(comp.elt, ast.Name) \
-                        and isinstance(g.target.elts[1], ast.Name) and comp.elt.id == g.target.elts[1].id:
-                    okq = True
-                elif isinstance(g.target, ast.Name) and src(comp.elt) in (f"{g.target.id}.weight", f"{g.target.id}[1]"):
-                    okq = True
-    ctx.check(okq, "q_weights = weight field of qha_input.weights in file order", qw, expected="[weight for coord, weight in qha_input.weights]",
-              found=found, explanation="the q-point weights are not the second field of the (coord, weight) records",
-              key="q_weights")
-
-    # clear_gamma_point
-    cref = f"{NS}:clear_gamma_point"
-    cg = model.func(cref)
-    ctx.fn(cref)
-    cw = model.where(cref, cg)
-    mat = cg.args.args[0].arg
-    cdims = rank_names(cg)
-    stores = [s for s in ast.walk(cg) if isinstance(s, ast.Assign) and isinstance(s.targets[0], ast.Subscript)]
-    if len(stores) != 1 or not (isinstance(stores[0].targets[0].value, ast.Name) and stores[0].targets[0].value.id == mat):
-        raise AnalysisError("clear_gamma_point: expected exactly one store into its argument")
-    st = stores[0]
-    idx = st.targets[0].slice
-    if isinstance(idx, ast.Name):
-        defs = [s for s in body_wo_doc(cg) if isinstance(s, ast.Assign) and isinstance(s.targets[0], ast.Name)
-                and s.targets[0].id == idx.id]
-        if len(defs) != 1:
-            raise AnalysisError("clear_gamma_point: index variable not defined exactly once")
-        idx = defs[0].value
-    lead, tail = parse_index(idx, cdims)
-    ok = lead and len(tail) == 2 and tail[0] == ("int", 0) and tail[1] in (("slice", 0, 3), ("slice", None, 3)) \
-        and isinstance(st.value, ast.Constant) and st.value.value == 0
-    ctx.check(ok, "Gamma mask zeroes exactly (.., q=0, m=0:3)", cw, expected="mat[..., 0, 0:3] = 0",
-              found=f"index {src(idx)} = {src(st.value)}", explanation="the Gamma-point mask must clear the three acoustic modes of the first q-point and nothing else",
-              key="clear_gamma_point.index")
-
-
-def parse_index(node, dims):
-    """recognise tuple([slice(None)]*(dims-2) + [a, b]) and (..., a, b) -> (leading_ok, [tail items])"""
-    def item(n):
-        if isinstance(n, ast.Constant) and isinstance(n.value, int):
-            return ("int", n.value)
-        if isinstance(n, ast.Slice):
-            g = lambda x: None if x is None else (x.value if isinstance(x, ast.Constant) else "?")
-            if n.step is not None:
-                return ("?",)
-            return ("slice", g(n.lower), g(n.upper))
-        if isinstance(n, ast.Call) and dotted_name(n.func) == "slice":
-            vals = [a.value if isinstance(a, ast.Constant) else "?" for a in n.args]
-            if len(vals) == 1:
-                return ("slice", None, vals[0])
-            if len(vals) == 2:
-                return ("slice", vals[0], vals[1])
-        return ("?",)
-
-    if isinstance(node, ast.Call) and dotted_name(node.func) == "tuple" and len(node.args) == 1:
-        node = node.args[0]
-    if isinstance(node, ast.BinOp) and isinstance(node.op, ast.Add):
-        left, right = node.left, node.right
-        lead_ok = False
-        if (isinstance(left, ast.BinOp) and isinstance(left.op, ast.Mult) and isinstance(left.left, ast.List)
-                and len(left.left.elts) == 1 and item(left.left.elts[0]) == ("slice", None, None)):
-            try:
-                lead_ok = axis_of(left.right, dims) == ("rank-", 2)
-            except AnalysisError:
-                lead_ok = False
-        if isinstance(right, (ast.List, ast.Tuple)):
-            return lead_ok, [item(e) for e in right.elts]
-        return False, []
-    if isinstance(node, ast.Tuple) and node.elts and isinstance(node.elts[0], ast.Constant) and node.elts[0].value is Ellipsis:
-        return True, [item(e) for e in node.elts[1:]]
-    raise AnalysisError(f"unrecognised index construction {src(node)[:80]}")
+    ctx.fn(f"{model.find_member(LONG, 'q_weights')[0]}.q_weights")
+    nq, np_ = 3, 4
+    X, cells = table(2, nq, np_)
+    ws = [sp.Symbol(f"W_{j}", positive=True) for j in range(nq)]
+    wl = Tup([Tup([Tup([sp.Symbol(f"QX{j}"), sp.Symbol(f"QY{j}"), sp.Symbol(f"QZ{j}")]), ws[j]]) for j in range(nq)], "list")
+    calc = Obj(CALC, {"qha_input": Obj("cij.io.traditional.qha_input:QHAInputData", {"weights": wl})})
+    for cref in (LONG, OFFD):
+        ev = Ev(model, {}, {}, ctx=ctx)
+        obj = Obj(cref, {"calculator": calc})
+        try:
+            out = ev.call(ev.get_attr(obj, "average_over_modes"), [X], {})
+        except RaisedV as e:
+            ctx.violation(f"method.average_over_modes.{cref.split(':')[1][:4]}", mw, "the weighted mode average", f"raises {e.exc_name}", f"the method average_over_modes raises {e.exc_name}")
+            continue
+        want = mode_average_reference(cells, ws, nq, np_)
+        ok = not isinstance(out, ArrV) and is_zero(as_sym(out) - want)
+        ctx.check(ok, f"{cref.split(':')[1][:12]}..: method average uses the q-point weights of qha_input.weights in file order", mw,
+                  expected=short(want, 160), found=short(as_sym(out), 160) if not isinstance(out, ArrV) else "an array",
+                  explanation="the weights handed to the mode average are not the weight field of the (coord, weight) records in file order",
+                  key=f"method.average_over_modes.{cref.split(':')[1][:4]}")
 
 
 # ------------------------------------------------------------------ producer / consumer of mode_gamma
